@@ -103,7 +103,11 @@ func (W) Gen(prop string, seed uint64, tier string) *world.Plan {
 				mocked[t] = false
 			}
 		case 4:
-			ops = append(ops, world.Op{K: "shape", N: r.Intn(len(asm.Shapes)), F: r.Intn(2), W: uint64(r.Intn(14))})
+			f := r.Intn(2)
+			if r.Chance(400) {
+				f = 2 + r.Intn(len(asm.TightSizes))
+			}
+			ops = append(ops, world.Op{K: "shape", N: r.Intn(len(asm.Shapes)), F: f, W: uint64(r.Intn(14))})
 		case 5:
 			ops = append(ops, world.Op{K: "call", T: t, F: r.Intn(3), W: r.U64()})
 		}
@@ -119,14 +123,24 @@ func funcAt(code uintptr) func() {
 	return *(*func())(unsafe.Pointer(&c))
 }
 
-var shapePhUsed = map[string]bool{}
+// ExtraRegions lets another world (mem) declare text it has modified itself.
+var ExtraRegions []simenv.Region
+
+// shapePhUsed: placeholder name -> number of bytes goom may write (0 = the whole symbol extent).
+var shapePhUsed = map[string]int{}
+
+// ShapeRegions is shapeRegions for other worlds that share the process.
+func ShapeRegions(img *simenv.Image) []simenv.Region { return shapeRegions(img) }
 
 // shapeRegions: placeholder bodies ever written (process-global, like Go placeholders).
 func shapeRegions(img *simenv.Image) []simenv.Region {
 	var rs []simenv.Region
-	for name := range shapePhUsed {
+	for name, n := range shapePhUsed {
 		a := img.Lookup(asm.Pkg + name + ".abi0")
-		rs = append(rs, simenv.Region{Addr: a, Len: int(img.Extent(a)), Kind: simenv.RegionAny, Name: "placeholder " + name})
+		if n == 0 {
+			n = int(img.Extent(a))
+		}
+		rs = append(rs, simenv.Region{Addr: a, Len: n, Kind: simenv.RegionAny, Name: "placeholder " + name})
 	}
 	return rs
 }
@@ -189,7 +203,7 @@ func (W) Exec(p *world.Plan, env *world.Env) {
 				env.Probe("origin_call_below_filler")
 			case "shape":
 				at = fmt.Sprintf("op#%d shape %s", i, asm.Shapes[op.N%len(asm.Shapes)].Name)
-				doShape(env, x, op, at)
+				DoShape(env, x, op, at)
 			default:
 				x.Step(i, op)
 			}
@@ -208,12 +222,19 @@ func (W) Exec(p *world.Plan, env *world.Env) {
 	env.Res.Nontriv = true
 }
 
-func doShape(env *world.Env, x *hist.Exec, op world.Op, at string) {
+// DoShape patches one entry shape through patch.PtrTrampoline with the selected placeholder,
+// executes the relocated code and checks every oracle (also used by world mem, x may be nil).
+func DoShape(env *world.Env, x *hist.Exec, op world.Op, at string) {
 	img := env.Image
 	s := asm.Shapes[op.N%len(asm.Shapes)]
 	phName := s.PhA
-	if op.F == 1 {
+	tight := 0 // > 0: a tight placeholder of that many bytes with a neighbour routine right behind it
+	switch {
+	case op.F == 1:
 		phName = s.PhZ
+	case op.F >= 2:
+		tight = asm.TightSizes[(op.F-2)%len(asm.TightSizes)]
+		phName = fmt.Sprintf("PhTight%d", tight)
 	}
 	origin := img.Lookup(asm.Pkg + s.Name + ".abi0")
 	ph := img.Lookup(asm.Pkg + phName + ".abi0")
@@ -239,9 +260,27 @@ func doShape(env *world.Env, x *hist.Exec, op world.Op, at string) {
 		env.Fail(sig, format, a...)
 	}
 	regions := func(extra ...simenv.Region) []simenv.Region {
-		return append(append(x.Regions(), shapeRegions(img)...), extra...)
+		var rs []simenv.Region
+		if x != nil {
+			rs = x.Regions()
+		}
+		rs = append(rs, ExtraRegions...)
+		return append(append(rs, shapeRegions(img)...), extra...)
+	}
+	neighbourOK := func(when string) {
+		if tight == 0 {
+			return
+		}
+		asm.Result = -5
+		funcAt(ph + uintptr(tight) + 1)()
+		if asm.Result != 77 {
+			fail("origin/neighbour-clobbered", "%s: the routine directly behind the %d-byte placeholder no longer works (Result=%d, want 77)", when, tight, asm.Result)
+		}
 	}
 	if pv != nil || err != nil || g == nil {
+		if tight > 0 {
+			env.Probe("tight_placeholder_refused")
+		}
 		env.Probe("shape_refused_" + s.Name)
 		env.T("shape %s refused", s.Name)
 		// refusal: function and placeholder unchanged
@@ -254,9 +293,15 @@ func doShape(env *world.Env, x *hist.Exec, op world.Op, at string) {
 		if r, c := runShape(s, in); r != wantRes || c != wantCalls {
 			fail("origin/refused-but-changed", "after the refused apply %s(%d) = %d, want %d", s.Name, in, r, wantRes)
 		}
+		neighbourOK("after the refused apply")
 		return
 	}
-	shapePhUsed[phName] = true
+	if tight > 0 {
+		shapePhUsed[phName] = tight + 1 // the placeholder's own bytes and the INT3 that ends its extent
+		env.Probe("tight_placeholder_accepted")
+	} else {
+		shapePhUsed[phName] = 0
+	}
 	g.Apply()
 	env.Probe("shape_accepted_" + s.Name)
 	if msg := img.Check(regions(simenv.Region{Addr: origin, Len: 13, Kind: simenv.RegionJump, Name: s.Name})); msg != "" {
@@ -280,6 +325,7 @@ func doShape(env *world.Env, x *hist.Exec, op world.Op, at string) {
 			fail("origin/result", "%s(%d) through the origin placeholder = %d (helper calls %d), the un-mocked function gives %d (%d)", s.Name, v, asm.Result, asm.Calls, want, wantC)
 		}
 	}
+	neighbourOK("with the trampoline installed")
 	g.UnpatchWithLock()
 	if msg := img.Check(regions()); msg != "" {
 		fail("image/not-restored", "after unpatching %s: %s", s.Name, msg)
